@@ -69,12 +69,22 @@ Section Any.
     cbn [out_of] in H. apply Z.ltb_lt in H. rewrite H. reflexivity.
   Qed.
 
+  (* rows the backward scan gets nothing from: rows before the window, behind any number of sales *)
+  Definition inert (first : Z) (B : list tx) : Prop := forall dflt adj s, bwd_scan A first dflt B adj s = Ok s.
+  Lemma out_inert first B : out_of first B -> inert first B.
+  Proof. intros H dflt adj s. apply bwd_scan_out. exact H. Qed.
+  Lemma sells_inert first S R : Forall (fun t => is_sell (t_act t) = true) S -> inert first R -> inert first (S ++ R).
+  Proof.
+    induction 1 as [|t S Ht HS IH]; intros HR; [exact HR|]. intros dflt adj s. cbn [app bwd_scan].
+    destruct (Z.ltb (t_sd t) first); [reflexivity|]. destruct (t_act t); try discriminate. apply IH. exact HR.
+  Qed.
+
   Lemma bwd_same first dflt D2 D1 : Forall2 row_sim D2 D1 -> forall B2 B1 adj s,
-    out_of first B1 -> out_of first B2 ->
+    inert first B1 -> inert first B2 ->
     bwd_scan A first dflt (D2 ++ B2) adj s = bwd_scan A first dflt (D1 ++ B1) adj s.
   Proof.
     induction 1 as [|t2 t1 D2 D1 [sp Ht] HD IH]; intros B2 B1 adj s H1 H2; cbn [app].
-    - rewrite !bwd_scan_out by assumption. reflexivity.
+    - rewrite (H1 dflt adj s), (H2 dflt adj s). reflexivity.
     - subst t2. cbn [bwd_scan]. rewrite respec_sd, respec_af.
       destruct (Z.ltb (t_sd t1) first); [reflexivity|].
       unfold respec. destruct (t_act t1) eqn:Ea; rewrite ?Ea; cbn [t_act];
@@ -103,12 +113,12 @@ Qed.
 (* a scan that sees only part of what the other sees (the rest of its rows lie
    before the window) succeeds when the other does, with fewer acquisitions *)
 Lemma bwd_prefix first dflt D2 D1 : Forall2 row_sim D2 D1 -> forall B2 B1 adj s s1,
-  out_of first B2 ->
+  inert exact first B2 ->
   bwd_scan exact first dflt (D1 ++ B1) adj s = Ok s1 ->
   exists s2, bwd_scan exact first dflt (D2 ++ B2) adj s = Ok s2 /\ sc_acq s2 <= sc_acq s1.
 Proof.
   induction 1 as [|t2 t1 D2 D1 [sp Ht] HD IH]; intros B2 B1 adj s s1 H2 H; cbn [app] in *.
-  - rewrite bwd_scan_out by assumption. exists s. split; [reflexivity|]. eapply bwd_mono; eassumption.
+  - rewrite (H2 dflt adj s). exists s. split; [reflexivity|]. eapply bwd_mono; eassumption.
   - subst t2. cbn [bwd_scan] in *. rewrite respec_sd, respec_af.
     destruct (Z.ltb (t_sd t1) first).
     + inversion H; subst. exists s1. split; [reflexivity | apply Qcle_refl].
